@@ -215,16 +215,19 @@ class Parser:
             self._comments[:] = []  # clear any comments from a previous parse
             ip = self.lalr.parse_interactive(text)
             for t in ip.iter_parse():
+                # the previous token (nothing for the first token of the input)
+                value_stack = ip.parser_state.value_stack
+                previous = value_stack[-1] if value_stack else None
                 if t.type == "UNQUOTED_STRING":
                     # Unquoted strings after SYMBOL can only be values, not attributes
                     if (
-                        ip.parser_state.value_stack[-1] == "SYMBOL"
+                        previous == "SYMBOL"
                         and t.value.upper() not in SYMBOL_ATTRIBUTES
                     ):
                         t.type = "UNQUOTED_STRING_VALUE"
                 elif t.type == "GRID":
                     # Unquoted 'GRID' coming after NAME is always a value, not a composite type
-                    if ip.parser_state.value_stack[-1] == "NAME":
+                    if previous == "NAME":
                         t.type = "UNQUOTED_STRING_VALUE"
 
             tree = ip.resume_parse()
